@@ -316,6 +316,31 @@ func (k *Kit) Leave(p *Peer) {
 	}
 }
 
+// Abort kills the TCP connection without a websocket close (a peer that dies, possibly while it is
+// not reading), then waits until the hub has dropped the connection if it had not already.
+func (k *Kit) Abort(p *Peer) {
+	if p.Conn == nil {
+		return
+	}
+	p.mu.Lock()
+	p.leftByUs = true
+	p.mu.Unlock()
+	before := k.Hooks.Count("hub.afterDrop", p.BID)
+	if tc, ok := p.Conn.UnderlyingConn().(*net.TCPConn); ok {
+		tc.SetLinger(0)
+	}
+	p.Conn.UnderlyingConn().Close()
+	p.Stall(false)
+	if p.Refused == "" {
+		// a drop by the hub's own doing (eviction) may already have happened; the reader's exit adds one more call
+		k.Hooks.Wait("hub.afterDrop", p.BID, before+1, k.Slack)
+	}
+	select {
+	case <-p.readerDone:
+	case <-time.After(k.Slack):
+	}
+}
+
 // Report is the part of a /status entry the harnesses read.
 type Report struct {
 	Topic    string
